@@ -17,13 +17,25 @@ Definition rows_wf (s : st) : Prop :=
 (* one dataset per (collection, type, data ID): the unique constraints of the tags / dataset tables *)
 Definition ekey (e : ent) : N * N * N := (ecoll e, ety e, edid e).
 Definition cont_ok (cn : list ent) : Prop := NoDup (map ekey cn).
-(* summaries are supersets of the contents *)
+(* summaries are supersets of the contents: every member's dataset type is registered and listed in the
+   summary of its collection, together with the value of every governor dimension of the dataset type *)
 Definition summ_ok (s : st) : Prop :=
   forall e, In e (cont s) ->
-    memNN (ecoll e, ety e) (summ s) = true /\ memNN (ecoll e, gov (edid e)) (gsumm s) = true.
+    ty_of (tys s) (ety e) <> None /\
+    memNN (ecoll e, ety e) (summ s) = true /\
+    forall g, In g (tgov s (ety e)) -> mem3 (ecoll e, g, gval g (edid e)) (gsumm s) = true.
 Definition colls_ok (s : st) : Prop := NoDup (map fst (colls s)).
+(* summary rows belong to existing collections, and only calibration dataset types are ever recorded for a
+   CALIBRATION collection (certify refuses anything else, put / associate refuse CALIBRATION collections) *)
+Definition calib_ok (s : st) : Prop :=
+  forall c ty, memNN (c, ty) (summ s) = true ->
+    match ctype_of (colls s) c with
+    | None => False
+    | Some CCalib => is_calty s ty = true
+    | Some _ => True
+    end.
 Definition wf (s : st) : Prop :=
-  acyclic (rows s) /\ rows_wf s /\ pos_unique (rows s) /\ cont_ok (cont s) /\ summ_ok s /\ colls_ok s.
+  acyclic (rows s) /\ rows_wf s /\ pos_unique (rows s) /\ cont_ok (cont s) /\ summ_ok s /\ colls_ok s /\ calib_ok s.
 
 Lemma reach_mono : forall rs rs' a b, (forall x y, edge rs x y -> edge rs' x y) -> reach rs a b -> reach rs' a b.
 Proof. intros rs rs' a b H R. induction R; [apply r_step; auto|eapply r_trans; eauto]. Qed.
@@ -273,7 +285,7 @@ Proof.
   destruct (match k with KRemove => Ok false | _ => map_res (fun l => memN p (filter (is_chained s) l)) (expand s cs) end) as [[|]|e'];
     try (inversion H; reflexivity).
   destruct (negb (forallb (exists_c s) cs)); [inversion H; reflexivity|].
-  destruct (ctype_of (colls s) p) as [[| |]|]; inversion H; reflexivity.
+  destruct (ctype_of (colls s) p) as [[| | |]|]; inversion H; reflexivity.
 Qed.
 
 Lemma edit_done : forall s k p cs s', edit s k p cs = (s', Done) ->
@@ -284,7 +296,7 @@ Proof.
   destruct (match k with KRemove => Ok false | _ => map_res (fun l => memN p (filter (is_chained s) l)) (expand s cs) end) as [[|]|e'] eqn:C;
     try discriminate.
   destruct (forallb (exists_c s) cs) eqn:Ex; simpl in H; [|discriminate].
-  destruct (ctype_of (colls s) p) as [[| |]|] eqn:T; try discriminate.
+  destruct (ctype_of (colls s) p) as [[| | |]|] eqn:T; try discriminate.
   inversion H; subst. repeat split.
   - unfold is_chained. rewrite T. reflexivity.
   - intros Hk. destruct k; try congruence; destruct (expand s cs) as [L|] eqn:E; simpl in C; try discriminate;
@@ -375,24 +387,110 @@ Proof.
   - destruct (N.eqb (fst y) n); simpl; [auto|]. rewrite IH by assumption. apply orb_true_r.
 Qed.
 
+Lemma memNN_filter_inv : forall (x : N * N) n l,
+  memNN x (filter (fun y : N * N => negb (N.eqb (fst y) n)) l) = true -> memNN x l = true /\ fst x <> n.
+Proof.
+  induction l as [|y t IH]; simpl; intros; [discriminate|].
+  destruct (N.eqb (fst y) n) eqn:E; simpl in H.
+  - destruct (IH H). split; [|assumption]. rewrite H0. apply orb_true_r.
+  - apply orb_true_iff in H. destruct H as [H|H].
+    + split; [rewrite H; reflexivity|]. apply andb_true_iff in H. destruct H as [E1 _]. apply N.eqb_eq in E1.
+      apply N.eqb_neq in E. congruence.
+    + destruct (IH H). split; [|assumption]. rewrite H0. apply orb_true_r.
+Qed.
+Lemma mem3_app_r : forall x a l, mem3 x l = true -> mem3 x (a ++ l) = true.
+Proof. induction a as [|y t IH]; simpl; intros; [assumption|]. rewrite IH by assumption. apply orb_true_r. Qed.
+Lemma mem3_map_in : forall c d gs g l, In g gs ->
+  mem3 (c, g, gval g d) (map (fun g => (c, g, gval g d)) gs ++ l) = true.
+Proof.
+  induction gs as [|h t IH]; simpl; intros g l H; [destruct H|]. destruct H as [->|H].
+  - rewrite !N.eqb_refl. reflexivity.
+  - rewrite IH by assumption. apply orb_true_r.
+Qed.
+Lemma mem3_filter_ne : forall (x : N * N * N) n l, fst (fst x) <> n -> mem3 x l = true ->
+  mem3 x (filter (fun y : N * N * N => negb (N.eqb (fst (fst y)) n)) l) = true.
+Proof.
+  induction l as [|y t IH]; simpl; intros; [discriminate|].
+  apply orb_true_iff in H0. destruct H0 as [H0|H0].
+  - pose proof H0 as Keep. apply andb_true_iff in H0. destruct H0 as [H0 _]. apply andb_true_iff in H0.
+    destruct H0 as [E1 _]. apply N.eqb_eq in E1.
+    destruct (N.eqb (fst (fst y)) n) eqn:E; [apply N.eqb_eq in E; congruence|]. simpl. rewrite Keep. reflexivity.
+  - destruct (N.eqb (fst (fst y)) n); simpl; [auto|]. rewrite IH by assumption. apply orb_true_r.
+Qed.
+Lemma ty_of_app_some : forall ts ty x y, ty_of ts ty = Some x -> ty_of (ts ++ [y]) ty = Some x.
+Proof.
+  induction ts as [|[m x'] r IH]; simpl; intros; [discriminate|].
+  destruct (N.eqb ty m); [assumption|]. apply IH. assumption.
+Qed.
+
+Lemma edit_flat_refused_same : forall s p cs s' e, edit_flat s p cs = (s', Refused e) -> s' = s.
+Proof.
+  intros s p cs s' e H. unfold edit_flat in H. destruct (flatten s cs) as [l|e'].
+  - eapply edit_refused_same; eauto.
+  - inversion H; reflexivity.
+Qed.
+
 Lemma step_refused_same : forall s o s' e, step s o = (s', Refused e) -> s' = s.
 Proof.
-  intros s o s' e H. destruct o as [n t|n|c ty d k|k p cs]; simpl in H.
+  intros s o s' e H. destruct o as [n t|n|c ty d k|k p cs|ty gs cal|c ty d k|p cs]; simpl in H.
   - destruct (ctype_of (colls s) n); inversion H.
   - destruct (ctype_of (colls s) n); [|inversion H; reflexivity].
     destruct (existsb (fun r => N.eqb (rchild r) n) (rows s)); inversion H; reflexivity.
-  - destruct (ctype_of (colls s) c) as [[| |]|]; try (inversion H; reflexivity);
+  - destruct (ty_of (tys s) ty); [|inversion H; reflexivity].
+    destruct (ctype_of (colls s) c) as [[| | |]|]; try (inversion H; reflexivity);
       destruct (lookup_ent (cont s) c ty d) as [k'|]; try discriminate;
       destruct (N.eqb k k' && _); inversion H; reflexivity.
   - eapply edit_refused_same; eauto.
+  - destruct (ty_of (tys s) ty) as [[gs' cal']|]; [|discriminate].
+    destruct (listN_eqb gs gs' && Bool.eqb cal cal'); inversion H; reflexivity.
+  - destruct (ctype_of (colls s) c) as [t|]; [|inversion H; reflexivity].
+    destruct (negb (is_calty s ty)); [inversion H; reflexivity|].
+    destruct (negb (ctype_eqb t CCalib)); [inversion H; reflexivity|].
+    destruct (lookup_ent (cont s) c ty d); [inversion H; reflexivity|discriminate].
+  - eapply edit_flat_refused_same; eauto.
 Qed.
 
-Ltac wf_split := split; [|split; [|split; [|split; [|split]]]].
+Ltac wf_split := split; [|split; [|split; [|split; [|split; [|split]]]]].
+
+Lemma edit_wf : forall s k p cs, wf s -> wf (fst (edit s k p cs)).
+Proof.
+  intros s k p cs Hwf. pose proof Hwf as [A [W [PU [CO [SO [CN CK]]]]]].
+  destruct (edit s k p cs) as [s' [|e]] eqn:E; simpl.
+  - pose proof (edit_done _ _ _ _ _ E) as [Hs' _].
+    wf_split.
+    + eapply edit_acyclic; eauto.
+    + eapply edit_rows_wf; eauto.
+    + subst s'. simpl. apply apply_edit_pos_unique. assumption.
+    + subst s'. assumption.
+    + subst s'. exact SO.
+    + subst s'. assumption.
+    + subst s'. exact CK.
+  - apply edit_refused_same in E. subst. exact Hwf.
+Qed.
+
+Lemma add_ent_wf : forall s c ty d k t, wf s -> ctype_of (colls s) c = Some t -> ty_of (tys s) ty <> None ->
+  lookup_ent (cont s) c ty d = None -> (t = CCalib -> is_calty s ty = true) -> wf (add_ent s c ty d k).
+Proof.
+  intros s c ty d k t Hwf T R L CT. pose proof Hwf as [A [W [PU [CO [SO [CN CK]]]]]].
+  unfold add_ent. wf_split; simpl; try assumption.
+  - unfold cont_ok in *. rewrite map_app. simpl. apply NoDup_app_disj; [assumption|constructor; [simpl; tauto|constructor]|].
+    intros x Hx [<-|[]]. apply in_map_iff in Hx. destruct Hx as [e [E He]].
+    unfold ekey in E. simpl in E. inversion E. eapply lookup_ent_none; eauto.
+  - intros e He. simpl in He. apply in_app_iff in He. destruct He as [He|[<-|[]]].
+    + destruct (SO e He) as [S0 [S1 S2]]. split; [exact S0|]. split; [apply memNN_cons; assumption|].
+      intros g Hg. apply mem3_app_r. apply S2. exact Hg.
+    + simpl. split; [exact R|]. split; [rewrite !N.eqb_refl; reflexivity|].
+      intros g Hg. apply mem3_map_in. exact Hg.
+  - intros c0 ty0 M. simpl in M. apply orb_true_iff in M. destruct M as [M|M].
+    + apply andb_true_iff in M. destruct M as [E1 E2]. apply N.eqb_eq in E1, E2. simpl in E1, E2. rewrite E1, E2.
+      simpl. rewrite T. destruct t; try exact I. apply CT. reflexivity.
+    + apply CK. exact M.
+Qed.
 
 Lemma step_wf : forall s o, wf s -> wf (fst (step s o)).
 Proof.
-  intros s o Hwf. pose proof Hwf as [A [W [PU [CO [SO CN]]]]].
-  destruct o as [n t|n|c ty d k|k p cs]; simpl.
+  intros s o Hwf. pose proof Hwf as [A [W [PU [CO [SO [CN CK]]]]]].
+  destruct o as [n t|n|c ty d k|k p cs|ty gs cal|c ty d k|p cs]; simpl.
   - (* register *)
     destruct (ctype_of (colls s) n) eqn:T; simpl; [exact Hwf|].
     wf_split; simpl; try assumption.
@@ -403,6 +501,9 @@ Proof.
     + unfold colls_ok in *. simpl. rewrite map_app. simpl.
       apply NoDup_app_disj; [assumption|constructor; [simpl; tauto|constructor]|].
       intros x Hx [<-|[]]. eapply ctype_of_none_notin; eauto.
+    + intros c0 ty0 M. specialize (CK c0 ty0 M). simpl.
+      destruct (ctype_of (colls s) c0) as [tc|] eqn:E; [|destruct CK].
+      rewrite (ctype_of_app_some _ _ _ _ E). exact CK.
   - (* remove collection *)
     destruct (ctype_of (colls s) n) eqn:T; simpl; [|exact Hwf].
     destruct (existsb (fun r => N.eqb (rchild r) n) (rows s)) eqn:Ex; simpl; [exact Hwf|].
@@ -424,37 +525,44 @@ Proof.
       inversion CO; subst. destruct (negb (N.eqb (ecoll e) n)); simpl; [|auto]. constructor; [|auto].
       intro Hin. apply H1. apply in_map_iff in Hin. destruct Hin as [e' [E He']]. apply filter_In in He'.
       rewrite <- E. apply in_map. tauto.
-    + intros e He. simpl in He. apply filter_In in He. destruct He as [Hin Hne]. destruct (SO e Hin) as [S1 S2].
+    + intros e He. simpl in He. apply filter_In in He. destruct He as [Hin Hne]. destruct (SO e Hin) as [S0 [S1 S2]].
       assert (ecoll e <> n) by (intro Hq; rewrite Hq, N.eqb_refl in Hne; discriminate).
-      split; apply memNN_filter_ne; simpl; assumption.
+      split; [exact S0|]. split; [apply memNN_filter_ne; simpl; assumption|].
+      intros g Hg. apply mem3_filter_ne; [simpl; assumption|]. apply S2. exact Hg.
     + unfold colls_ok in *. simpl. apply NoDup_map_filter. assumption.
+    + intros c0 ty0 M. simpl in M. apply memNN_filter_inv in M. destruct M as [M Hne]. simpl in Hne.
+      specialize (CK c0 ty0 M). simpl. rewrite ctype_of_filter_ne by assumption. exact CK.
   - (* put / associate *)
+    destruct (ty_of (tys s) ty) as [x|] eqn:TY; simpl; [|exact Hwf].
     destruct (ctype_of (colls s) c) as [t|] eqn:T; simpl; [|exact Hwf].
-    assert (G : forall t', wf (fst (match lookup_ent (cont s) c ty d with
-          | Some k' => if N.eqb k k' && ctype_eqb t' CTagged then (s, Done) else (s, Refused EConflict)
-          | None => (mkSt (colls s) (rows s) (cont s ++ [mkEnt c ty d k]) ((c, ty) :: summ s) ((c, gov d) :: gsumm s), Done)
-          end))).
-    { intro t'. destruct (lookup_ent (cont s) c ty d) as [k'|] eqn:L; simpl.
-      - destruct (N.eqb k k' && ctype_eqb t' CTagged); exact Hwf.
-      - wf_split; simpl; try assumption.
-        + unfold cont_ok in *. rewrite map_app. simpl. apply NoDup_app_disj; [assumption|constructor; [simpl; tauto|constructor]|].
-          intros x Hx [<-|[]]. apply in_map_iff in Hx. destruct Hx as [e [E He]].
-          unfold ekey in E. simpl in E. inversion E. eapply lookup_ent_none; eauto.
-        + intros e He. simpl in He. apply in_app_iff in He. destruct He as [He|[<-|[]]].
-          * destruct (SO e He). split; apply memNN_cons; assumption.
-          * simpl. rewrite !N.eqb_refl. simpl. split; reflexivity. }
-    destruct t; [apply G|apply G|exact Hwf].
+    assert (R : ty_of (tys s) ty <> None) by congruence.
+    destruct t; try exact Hwf;
+      (destruct (lookup_ent (cont s) c ty d) as [k'|] eqn:L; simpl;
+       [destruct (N.eqb k k' && _); exact Hwf
+       |eapply add_ent_wf; eauto; discriminate]).
   - (* chain edit *)
-    destruct (edit s k p cs) as [s' [|e]] eqn:E; simpl.
-    + pose proof (edit_done _ _ _ _ _ E) as [Hs' _].
-      wf_split.
-      * eapply edit_acyclic; eauto.
-      * eapply edit_rows_wf; eauto.
-      * subst s'. simpl. apply apply_edit_pos_unique. assumption.
-      * subst s'. assumption.
-      * subst s'. exact SO.
-      * subst s'. assumption.
-    + apply edit_refused_same in E. subst. exact Hwf.
+    apply edit_wf. exact Hwf.
+  - (* register dataset type *)
+    destruct (ty_of (tys s) ty) as [[gs' cal']|] eqn:TY; simpl.
+    + destruct (listN_eqb gs gs' && Bool.eqb cal cal'); exact Hwf.
+    + wf_split; simpl; try assumption.
+      * intros e He. simpl in He. destruct (SO e He) as [S0 [S1 S2]].
+        destruct (ty_of (tys s) (ety e)) as [x|] eqn:E; [|congruence].
+        unfold tgov in *. simpl. rewrite E in S2. rewrite (ty_of_app_some _ _ _ _ E).
+        split; [discriminate|]. split; assumption.
+      * intros c ty0 M. specialize (CK c ty0 M). simpl.
+        destruct (ctype_of (colls s) c) as [[| | |]|]; try exact CK.
+        unfold is_calty in *. simpl. destruct (ty_of (tys s) ty0) as [x|] eqn:E; [|discriminate].
+        rewrite (ty_of_app_some _ _ _ _ E). exact CK.
+  - (* certify *)
+    destruct (ctype_of (colls s) c) as [t|] eqn:T; simpl; [|exact Hwf].
+    destruct (is_calty s ty) eqn:CT; simpl; [|exact Hwf].
+    destruct (ctype_eqb t CCalib) eqn:TC; simpl; [|exact Hwf].
+    destruct (lookup_ent (cont s) c ty d) as [k'|] eqn:L; simpl; [exact Hwf|].
+    eapply add_ent_wf; eauto.
+    unfold is_calty in CT. destruct (ty_of (tys s) ty); [discriminate|discriminate].
+  - (* setCollectionChain(flatten=True) *)
+    unfold edit_flat. destruct (flatten s cs) as [l|e]; [apply edit_wf; exact Hwf|exact Hwf].
 Qed.
 
 Lemma init_wf : wf init.
@@ -466,6 +574,7 @@ Proof.
   - constructor.
   - intros e [].
   - constructor.
+  - intros c ty M. discriminate.
 Qed.
 Lemma run_wf : forall ops s, wf s -> wf (run s ops).
 Proof. induction ops as [|o t IH]; simpl; intros; [assumption|]. apply IH. apply step_wf. assumption. Qed.
